@@ -7,6 +7,7 @@ CONSTANTS
   EofDecodes = TRUE
   KeepBufOnPending = TRUE
   SurfaceIoErr = FALSE
+  EofFastPath = FALSE
 SPECIFICATION Spec
 VIEW View
 INVARIANTS C13_Frames C13_Prefix C13_TerminalLast C13_Progress 
